@@ -65,7 +65,7 @@ theorem save_linear (r : Repo) (hl : Linear r) :
     simp [hph]
   -- saveMainBranch never fails on an unpruned branch
   obtain ⟨r2, hsm⟩ : ∃ r2, saveMainBranch r = .ok r2 := by
-    unfold saveMainBranch
+    unfold saveMainBranch saveMainStart
     simp only
     have hno : ¬ ((r.br r.longest).offset ≠ 1 ∧
         (r.br r.longest).prunedLowest - Int.tdiv (r.br r.longest).prunedLowest hpf * hpf > 0) := by
